@@ -230,6 +230,24 @@ func runC02(c *core.Ctx) {
 	specs := c02Specs()
 	r := c.Rng
 	st := sg.Stats{}
+	// neighbours: converters of other configurations live in the same process (heading attributes, automatic ids, every
+	// extension, renderer flags, options given through the option route) and convert a document now and again. What they were
+	// configured with is their business; the CommonMark configuration under test must not notice.
+	nbs := []goldmark.Markdown{
+		cfg.Spec{Ext: cfg.ExtAll, AutoHeadingID: true, Attribute: true}.Build(),
+		cfg.Spec{Ext: cfg.ExtCore, Attribute: true, HardWraps: true}.Build(),
+		cfg.Spec{Ext: cfg.ExtAll, Rich: true, Rich3: true, AutoHeadingID: true}.Build(),
+		cfg.Spec{Ext: cfg.ExtCJKCSS3, Unsafe: true}.Build(),
+	}
+	nbDoc := []byte("# Foo {#bar}\n\nSetext {.c}\n===\n\n\"q\" -- x[^1] www.a.b ~~s~~ #12\n\n[^1]: n\n\n| a |\n|:-:|\n| b |\n\n- [x] t\n\nterm\n: def\n")
+	neighbourTurn := func() {
+		for _, nb := range nbs {
+			_ = convert(nb, nbDoc)
+			c.Eval()
+		}
+		c.Count("conversions_by_neighbour_instances", int64(len(nbs)))
+	}
+	neighbourTurn()
 	// part 2: spec example rewrites
 	examples, _ := wl.SpecExamples(c.Repo)
 	specCfg := specs[0]
